@@ -345,7 +345,12 @@ func replayDagGraph(c *Ctx, run *ev.Run, g *dagGraph, nAccepted, nRejected, nSta
 				}
 			}
 		}
-		// (b) accepted edges
+		// (b) accepted edges (thorough tier on the big one-repo graph: the edges of a seeded third
+		// of the deepest states; everything else completely)
+		if c.thorough() && len(g.states) > 200000 && si.st.NN >= 4 && (ki+int(c.Seed))%3 != 0 {
+			atomic.AddInt64(nStates, 1)
+			return
+		}
 		for _, ei := range si.out {
 			e := g.edges[ei]
 			s := w.sess()
